@@ -299,6 +299,48 @@ func (e *kengine) derive(s *kstate, v ssa.Value, depth int) kfact {
 			f.ci = ciUnknown // unexported fields cannot be interfaced
 			return f
 		}
+		// a package helper that hands back its reflect.Value argument or what it points to / holds (Elem): the
+		// result can be interfaced iff the argument can
+		if e.p.InPkg(callee) && callee.Blocks != nil && len(callee.Params) == 1 && isReflectValue(callee.Params[0].Type()) && len(args) == 1 {
+			pass := true
+			rets := returnsOf(callee)
+			for _, ret := range rets {
+				if len(ret.Results) != 1 {
+					pass = false
+					break
+				}
+				var okv func(v ssa.Value, d int) bool
+				okv = func(v ssa.Value, d int) bool {
+					if d > 3 {
+						return false
+					}
+					switch y := v.(type) {
+					case *ssa.Parameter:
+						return true
+					case *ssa.Phi:
+						for _, ed := range y.Edges {
+							if !okv(ed, d+1) {
+								return false
+							}
+						}
+						return true
+					case *ssa.Call:
+						if cc := y.Common().StaticCallee(); cc != nil && e.p.extName(cc) == "(reflect.Value).Elem" {
+							return okv(y.Common().Args[0], d+1)
+						}
+					}
+					return false
+				}
+				if !okv(res(ret, 0), 0) {
+					pass = false
+				}
+			}
+			if pass && len(rets) > 0 {
+				r := sub(args[0])
+				f.ci = r.ci
+				return f
+			}
+		}
 		return f
 	case *ssa.Extract:
 		// element of []reflect.Value results (Call) etc.
